@@ -21,6 +21,19 @@
 (*   "FieldAfterSigning"  on the per-recipient body path of the pipeline  *)
 (*                        the fields requested by checks are added after  *)
 (*                        the signer ran (an over-signed one breaks it)   *)
+(*   "CountByConfigSpelling"  the number of instances of a configured field *)
+(*                        is looked up under the spelling of the            *)
+(*                        configuration (0 when that is not the canonical   *)
+(*                        one): h= lists too few instances                  *)
+(*   "LastListWins"       a name in oversign_fields AND sign_fields is      *)
+(*                        treated as signed only                            *)
+(* fc / nm: the signer's field configuration (defaults, or the operator's *)
+(* own oversign_fields / sign_fields in one of four spellings, with a name *)
+(* listed twice / in both lists) and the NAME of every generated header    *)
+(* field (over-signed, signed only, not configured; three names per kind, *)
+(* so names repeat).  The h= layer below says how often a name must be     *)
+(* listed and which tampering (remove / alter / add an instance, topmost   *)
+(* or bottommost) a verifier then detects.                                 *)
 (* via: how the message reaches the signer: "direct" (the harness calls   *)
 (* the modifier), "pipe_body" / "pipe_na" (through a real pipeline whose  *)
 (* check asks for an over-signed field to be added, entered by Body /     *)
@@ -77,20 +90,57 @@ Canon(m) == <<CanonHdr(m.hc, m), CanonBody(m.bc, m)>>
 
 Verifies(m) == Canon(Received(m)) = Canon(m)
 
+(* ---- which fields are signed: the h= tag (RFC 6376 3.5, 5.4, 5.4.2) --------- *)
+NameKinds == {"over", "sign", "free"}      \* in oversign_fields / in sign_fields only / not configured
+Spellings == {"canon", "lower", "upper", "rfc"}   \* of the names in the configuration: Go's canonical MIME
+                                           \* form (Message-Id), all lower, all upper, the RFCs' (Message-ID)
+Dups      == {"none", "same", "cross"}     \* name over#1 twice in oversign_fields (two spellings) /
+                                           \* name over#2 also in sign_fields.  First occurrence wins.
+Expiries  == {"default", "none", "short"}  \* sig_expiry: 5 days / no x= tag / one hour (data dimension: the
+                                           \* message arrives within seconds, the model does not depend on it)
+DefaultFc == [custom |-> FALSE, spell |-> "canon", dup |-> "none", exp |-> "default"]
+FieldCfgs == {DefaultFc} \cup [custom : {TRUE}, spell : Spellings, dup : Dups, exp : Expiries]
+Names     == [k : NameKinds, n : 1..3]
+Count(view, nm) == Cardinality({i \in DOMAIN view : view[i] = nm})
+\* how often the signer lists nm in h= : once per instance, once more for an over-signed name
+HMult(fc, view, nm) ==
+  LET kind == IF "LastListWins" \in Devs /\ fc.dup = "cross" /\ nm = [k |-> "over", n |-> 2] THEN "sign" ELSE nm.k
+      cnt  == IF "CountByConfigSpelling" \in Devs /\ fc.spell # "canon" THEN 0 ELSE Count(view, nm)
+  IN IF kind = "free" THEN 0 ELSE cnt + (IF kind = "over" THEN 1 ELSE 0)
+\* A verifier binds, for a name listed H times, its H bottommost instances (missing ones as the null
+\* string).  Tampering with instance "top" / "bottom" of cnt instances (values pairwise different):
+Detected(H, cnt, t, pos) ==
+  CASE t = "alter"  -> IF pos = "top" THEN H >= cnt /\ cnt >= 1 ELSE H >= 1 /\ cnt >= 1
+    [] t = "remove" -> IF pos = "top" THEN H >= cnt /\ cnt >= 1 ELSE H >= 1 /\ cnt >= 1
+    [] t = "add"    -> IF pos = "top" THEN H >= cnt + 1 ELSE H >= 1
+\* what the property demands: a signed field that is there cannot be removed or altered, and no
+\* instance of an over-signed field can be added, without breaking the signature
+Required(kind, cnt, t) == \/ t \in {"remove", "alter"} /\ kind \in {"over", "sign"} /\ cnt >= 1
+                          \/ t = "add" /\ kind = "over"
+HOK(fc, view) == \A nm \in Names, t \in {"remove", "alter", "add"}, pos \in {"top", "bottom"} :
+                   Required(nm.k, Count(view, nm), t) => Detected(HMult(fc, view, nm), Count(view, nm), t, pos)
+HRows == [fc : FieldCfgs, nm : SeqsUpTo(Names, MaxFields)]
+
 (* ---- what TLC checks on the model ----------------------------------------- *)
 \* every shape survives the stages; (with a deviation switched on some shape does not)
 AllVerify == \A m \in Shapes : Verifies(m)
 
 (* ---- the property over one observed row ----------------------------------- *)
 \* out: [delivered, verifiedIndep, verifiedLib, tamper: [remove, alter, add_oversigned -> verified?]]
+\* out.tampers (rows recorded since the h= layer exists): every tampering the harness tried at the next
+\* hop, [t, nk = kind of the field's name under the row's configuration, cnt = instances present (0, 1, 2 =
+\* two or more), pos, verified]
+TamperViol(out) == "tampers" \in DOMAIN out /\
+                   \E i \in DOMAIN out.tampers : LET x == out.tampers[i] IN Required(x.nk, x.cnt, x.t) /\ x.verified
 Prop(in, out) ==
   /\ out.delivered
   /\ out.verifiedIndep /\ out.verifiedLib
   /\ ~out.tamper.remove /\ ~out.tamper.alter /\ ~out.tamper.add_oversigned
+  /\ ~TamperViol(out)
 PropViol(in, out) ==
   (IF out.delivered THEN {} ELSE {"NotDelivered"})
   \cup (IF out.delivered /\ ~(out.verifiedIndep /\ out.verifiedLib) THEN {"SignatureBrokenAtNextHop"} ELSE {})
-  \cup (IF out.delivered /\ (out.tamper.remove \/ out.tamper.alter \/ out.tamper.add_oversigned)
+  \cup (IF out.delivered /\ (out.tamper.remove \/ out.tamper.alter \/ out.tamper.add_oversigned \/ TamperViol(out))
         THEN {"TamperedMessageVerifies"} ELSE {})
 
 (* ---- row generation -------------------------------------------------------- *)
@@ -99,15 +149,24 @@ Init == row \in Shapes
 Next == UNCHANGED row
 Spec == Init /\ [][Next]_row
 RowOK == Verifies(row)
+\* the h= layer, exhaustively: every field configuration x every naming of up to MaxFields fields
+HInit == row \in HRows
+HSpec == HInit /\ [][Next]_row
+HRowOK == HOK(row.fc, row.nm)
 
 (* seeded random rows for the replay (TLC's RandomElement follows -seed) *)
 RandSeq(S, lo, hi, i) == LET n == RandomElement(lo..hi) IN [k \in 1..n |-> RandomElement(S)]
-RandShape(i) == [hdr |-> RandSeq(HdrAtoms, 1, MaxFields, i), body |-> RandSeq(BodyAtoms, 0, MaxLines, i),
+RandFc(i) == IF RandomElement(1..3) = 1 THEN DefaultFc
+             ELSE [custom |-> TRUE, spell |-> RandomElement(Spellings), dup |-> RandomElement(Dups),
+                   exp |-> RandomElement(Expiries)]
+RandShape(i) == LET h == RandSeq(HdrAtoms, 1, MaxFields, i) IN
+                [hdr |-> h, nm |-> [k \in 1..Len(h) |-> RandomElement(Names)], fc |-> RandFc(i),
+                 body |-> RandSeq(BodyAtoms, 0, MaxLines, i),
                  ending |-> RandomElement(Endings), hc |-> RandomElement(Canons), bc |-> RandomElement(Canons),
                  key |-> RandomElement(Keys), eai |-> RandomElement(BOOLEAN), idn |-> RandomElement(BOOLEAN),
                  via |-> RandomElement(Vias)]
 GenInit == row \in {RandShape(i) : i \in 1..GenN}
 GenPrint == PrintT(<<"ROW", ToJson(row)>>) /\ UNCHANGED row
 GenSpec == GenInit /\ [][UNCHANGED row]_row
-GenOK == PrintT(<<"ROW", ToJson(row)>>) /\ Verifies(row)
+GenOK == PrintT(<<"ROW", ToJson(row)>>) /\ Verifies(row) /\ HOK(row.fc, row.nm)
 =============================================================================
